@@ -161,11 +161,14 @@ func c14load(cs c14case) (res string) {
 }
 
 func walk(m *meta.Module) {
+	// every definition object once: a schema with recursive groupings contains itself
+	seen := map[meta.Meta]bool{}
 	var rec func(d meta.Meta, depth int)
 	rec = func(d meta.Meta, depth int) {
-		if depth > 200 {
+		if depth > 200 || seen[d] {
 			return
 		}
+		seen[d] = true
 		if h, ok := d.(meta.HasDataDefinitions); ok {
 			for _, k := range h.DataDefinitions() {
 				_ = k.Ident()
@@ -305,6 +308,25 @@ var c14cycles = []struct{ desc, body string }{
 	{"deviate replace units on a list", "list l { key k; leaf k { type string; } } deviation \"/l\" { deviate replace { units u; } }"},
 	{"deviate add config on an rpc", "rpc r { } deviation \"/r\" { deviate add { config false; } }"},
 	{"deviate add mandatory on a list", "list l { key k; leaf k { type string; } } deviation \"/l\" { deviate add { mandatory true; } }"},
+	{"five groupings in a ring, every recursion through a container", "grouping g0 { container c1 { uses g4; } } grouping g1 { container c11 { uses g3; } uses g4; } grouping g2 { container c14 { uses g1; } } grouping g3 { uses g1; } grouping g4 { uses g0; uses g2; } uses g0;"},
+	{"six groupings in two rings sharing a member", "grouping a { container ca { uses b; uses d; } } grouping b { container cb { uses c; } } grouping c { container cc { uses a; } uses e; } grouping d { container cd { uses f; } } grouping e { container ce { uses a; } } grouping f { container cf { uses d; uses b; } } uses a;"},
+	{"deviate replace default on a choice", "choice ch { default a; case a { leaf x { type string; } } case b { leaf y { type string; } } } deviation \"/ch\" { deviate replace { default b; } }"},
+	{"deviate replace default on a container", "container c { } deviation \"/c\" { deviate replace { default b; } }"},
+	{"deviate replace default on a list", "list l { key k; leaf k { type string; } } deviation \"/l\" { deviate replace { default b; } }"},
+	{"deviate add default on a choice", "choice ch { case a { leaf x { type string; } } case b { leaf y { type string; } } } deviation \"/ch\" { deviate add { default b; } }"},
+	{"deviate add units on anydata", "anydata a; deviation \"/a\" { deviate add { units x; } }"},
+	{"deviate replace type on anydata", "anydata a; deviation \"/a\" { deviate replace { type string; } }"},
+	{"deviate add default on anydata", "anydata a; deviation \"/a\" { deviate add { default x; } }"},
+	{"deviate add two defaults on a leaf", "leaf l { type string; } deviation \"/l\" { deviate add { default a; default b; } }"},
+	{"belongs-to prefix used for a type in a module", "belongs-to y { prefix y; } leaf l { type y:t; }"},
+	{"belongs-to prefix used for a uses in a module", "belongs-to y { prefix y; } uses y:g;"},
+	{"belongs-to prefix used for an identity base in a module", "belongs-to y { prefix y; } identity i { base y:b; } leaf r { type identityref { base y:b; } }"},
+	{"augment with an action onto a leaf", "container c { leaf l { type string; } } augment \"/c/l\" { action a { input { leaf i { type string; } } } }"},
+	{"augment with an action onto a choice", "container c { choice ch { leaf l { type string; } } } augment \"/c/ch\" { action a { input { leaf i { type string; } } } }"},
+	{"augment with a notification onto a choice", "container c { choice ch { leaf l { type string; } } } augment \"/c/ch\" { notification n { leaf i { type string; } } }"},
+	{"augment with an action onto an rpc", "rpc r { input { leaf i { type string; } } } augment \"/r\" { action q { input { leaf i { type string; } } } }"},
+	{"identity base cycle", "identity a { base b; } identity b { base c; } identity c { base a; } leaf r { type identityref { base a; } }"},
+	{"identity that is its own base", "identity a { base a; } leaf r { type identityref { base a; } }"},
 	{"belongs-to in a module", "belongs-to x { prefix x; } leaf a { type nosuch; }"},
 	{"statements in places they do not belong", "leaf a { type string; container c { } key k; } container c { type string; enum x; } list l { key k; leaf k { type string; } value 3; position 2; } choice ch { leaf-list ll { type string; } key z; }"},
 	{"statements given twice", "typedef t { type string; default a; default b; } leaf l { type string; default a; default b; units u; units v; description x; description y; } choice c { default a; default a; case a { leaf q { type string; } } } container k { presence a; presence b; config true; config false; }"},
